@@ -7,12 +7,14 @@ use serde_json::{json, Value};
 
 pub fn capture_all(mutating: bool) -> Value {
     let el_ops = if mutating {
-        json!([{"op":"before","a":["<!--b-->"]},{"op":"set_attr","a":["data-x","1"]},{"op":"on_end_tag","a":[[{"op":"after","a":["[a]"]}]]}])
+        json!([{"op":"before","a":["<!--b-->"]},{"op":"set_attr","a":["data-x","1"]},{"op":"set_attr","a":["data-y","2"]},{"op":"rm_attr","a":["data-x"]},
+               {"op":"on_end_tag","a":[[{"op":"after","a":["[a]"]},{"op":"set_name","a":["x"]},{"op":"set_name","a":["y"]}]]}])
     } else {
         json!([{"op":"on_end_tag","a":[[]]}])
     };
     let tx_ops = if mutating { json!([{"op":"before","a":["~"],"nonempty":true}]) } else { json!([]) };
-    json!({"elem":[{"sel":"*","element":el_ops}], "doc":[{"doctype":[],"comments":[],"text":tx_ops}], "full":true})
+    let cm_ops = if mutating { json!([{"op":"set_text","a":["one"]},{"op":"set_text","a":["two"]}]) } else { json!([]) };
+    json!({"elem":[{"sel":"*","element":el_ops}], "doc":[{"doctype":[],"comments":cm_ops,"text":tx_ops}], "full":true})
 }
 
 /// Capture-all variants for C16: the element selector either matches by name only ('*') or needs the
@@ -47,6 +49,9 @@ pub fn project(tl: &[Value]) -> (Vec<Value>, String) {
             "ev" => {
                 let s = e.get("loc").map(|l| l[0].clone()).unwrap_or(json!(0));
                 let en = e.get("loc").map(|l| l[1].clone()).unwrap_or(json!(0));
+                // the range as reported again after the handler's own edits (same token): [-1, -1] when there were none
+                let l2 = e.get("loc2").cloned().unwrap_or(json!([-1, -1]));
+                let ntoks = toks.len();
                 match e["k"].as_str().unwrap() {
                     "el" => {
                         // edits performed by the handler (arguments as code points) and the element as read afterwards
@@ -69,6 +74,7 @@ pub fn project(tl: &[Value]) -> (Vec<Value>, String) {
                     "tx" => toks.push(json!({"k":"tx","s":s,"e":en,"text":e["text"],"tt":e["tt"],"last":e["last"]})),
                     _ => {}
                 }
+                if toks.len() > ntoks { let last = toks.len() - 1; toks[last]["s2"] = l2[0].clone(); toks[last]["e2"] = l2[1].clone(); }
             }
             _ => {}
         }
